@@ -416,12 +416,10 @@ func (p *podAssignCache) OnDelete(obj interface{}) {
 // It returns false is nodeInfo is already deleted and caller should get a new nodeInfo and retry.
 // Unlock is called whether nodeInfo is locked before calling or not.
 func (n *nodeInfo) AddOrUpdatePod(pod *podAssignInfo, locked bool) bool {
-	if n.deleted {
-		if locked {
-			n.Unlock()
-		}
-		return false
-	}
+	// NOTE: deleted must only be read with the lock held. An unlocked fast-path check is a data race
+	// with tryCleanup and, worse, lets the caller's retry loop find the same nodeInfo (marked deleted
+	// but not yet removed from cache.items) again without waiting for the deleter, so that the
+	// event is dropped after two tries.
 	if !locked {
 		n.Lock()
 	}
@@ -447,9 +445,6 @@ func (n *nodeInfo) AddOrUpdatePod(pod *podAssignInfo, locked bool) bool {
 }
 
 func (n *nodeInfo) DeletePod(name string, uid types.UID, p *podAssignCache) {
-	if n.deleted {
-		return
-	}
 	n.Lock()
 	defer n.Unlock()
 	if n.deleted {
@@ -518,12 +513,7 @@ func (p *podAssignCache) DeleteNodeMetric(name string) {
 // It returns false is nodeInfo is already deleted and caller should get a new nodeInfo and retry.
 // Unlock is called whether nodeInfo is locked before calling or not.
 func (n *nodeInfo) AddOrUpdateNodeMetric(metric *slov1alpha1.NodeMetric, p *podAssignCache, locked bool) bool {
-	if n.deleted {
-		if locked {
-			n.Unlock()
-		}
-		return false
-	}
+	// NOTE: deleted is only read with the lock held, see AddOrUpdatePod.
 	var podUsages map[NamespacedName]ResourceVector
 	var prodPods sets.Set[NamespacedName]
 	var nodeUsage, prodUsage ResourceVector = nil, p.vectorizer.EmptyVec()
@@ -603,9 +593,6 @@ func (n *nodeInfo) AddOrUpdateNodeMetric(metric *slov1alpha1.NodeMetric, p *podA
 }
 
 func (n *nodeInfo) DeleteNodeMetric(name string, p *podAssignCache) {
-	if n.deleted {
-		return
-	}
 	n.Lock()
 	defer n.Unlock()
 	if n.deleted {
